@@ -13,7 +13,7 @@ git -C $wt reset -q --hard HEAD
 if ! git -C $wt apply $patch 2>/dev/null; then
   if ! git -C $wt apply --3way $patch >/dev/null 2>&1; then echo "$patch APPLY-FAILED"; rm -rf $out; exit 2; fi
 fi
-/verif/bin/tvc -property $props -tier quick -repo $wt -verif $out > $out/log 2>&1
+${TVC_BIN:-/verif/bin/tvc} -property $props -tier quick -repo $wt -verif $out > $out/log 2>&1
 ids=$(grep -o '^VIOLATION property=C[0-9]*' $out/log | sed 's/.*=//' | sort -u | tr '\n' ',' )
 echo "$patch violated=[${ids%,}]"
 if [ "${VERBOSE:-0}" = 1 ]; then
